@@ -40,6 +40,9 @@ SCENARIOS = {
     'adjacent-eots-both-nonzero': [[ev('n', 2, 1), ev('eot', 3), ev('eot', 4)], [ev('n', 1, 2)]],
     'eots-of-two-tracks-adjacent-in-merge': [[ev('n', 1, 1), ev('eot', 9)], [ev('n', 2, 2), ev('eot', 20)], [ev('n', 40, 3)]],
     'later-track-earlier-times': [[ev('n', 20, 1)], [ev('n', 5, 2), ev('n', 5, 3)], [ev('n', 1, 4), ev('eot', 30)]],
+    # gaps beyond every fixed-width limit one might clamp to (28-bit VLQ, 32-bit, 63-bit): ticks are unbounded integers
+    'huge-gaps': [[ev('n', 2 ** 28 + 5, 1), ev('n', 3, 2), ev('eot', 2 ** 33)], [ev('n', 7, 3), ev('n', 2 ** 40, 4)], [ev('eot', 2 ** 70)]],
+    'single-message-tracks': [[ev('tempo', 0, 1)], [ev('n', 4, 2)], [ev('eot', 9)], [ev('n', 1, 3), ev('n', 1, 4)]],
 }
 
 
@@ -184,4 +187,12 @@ def r12_structure(ctx):
                     construct=f'{f.qname}::stores')
 
 
-RULES = [('R12-scenarios', r12_scenarios), ('R12-structure', r12_structure)]
+def r12_current_contents(ctx):
+    """MidiFile.merged_track hands merge_tracks the tracks as they are NOW: no memo of an earlier merge (shared with C16:
+    no derived state in MidiFile, observe - edit - observe equals a fresh file)."""
+    from . import c16
+    ctx.borrow(c16.r16_1, 'R12.5')
+    ctx.borrow(c16.r16_3, 'R12.5')
+
+
+RULES = [('R12-scenarios', r12_scenarios), ('R12-structure', r12_structure), ('R12.5', r12_current_contents)]
